@@ -57,7 +57,7 @@ var nestedRegexPool = []string{`label`, `undefined`, `is not defined`, `^job `, 
 
 type nfile struct {
 	Inner bool   `json:"inner"`
-	Rel   string `json:"rel"` // slash path relative to the root of the repository containing it
+	Rel   string `json:"rel"`             // slash path relative to the root of the repository containing it
 	Upper bool   `json:"upper,omitempty"` // the repository nested/INNER: its root differs from nested/inner in letter case only
 }
 
@@ -84,10 +84,11 @@ func (l *layout) mkInner() {
 	for rel, c := range innerContent {
 		hx.Must(os.WriteFile(filepath.Join(l.innerRoot(), rel), []byte(c), 0o644))
 	}
-	// a sibling repository whose root differs in letter case only (a case-sensitive file system)
-	for _, d := range []string{".git", ".github/workflows"} {
-		hx.Must(os.MkdirAll(filepath.Join(l.upperRoot(), d), 0o755))
-	}
+	// a sibling repository whose root differs in letter case only (a case-sensitive file system);
+	// its .git is a symbolic link to a directory elsewhere (shared git directories, `repo` checkouts)
+	hx.Must(os.MkdirAll(filepath.Join(l.upperRoot(), ".github/workflows"), 0o755))
+	hx.Must(os.MkdirAll(filepath.Join(l.base, "gitstore"), 0o755))
+	hx.Must(os.Symlink(filepath.Join(l.base, "gitstore"), filepath.Join(l.upperRoot(), ".git")))
 	for rel, c := range innerContent {
 		hx.Must(os.WriteFile(filepath.Join(l.upperRoot(), rel), []byte(c), 0o644))
 	}
